@@ -23,20 +23,20 @@ type Scenario struct {
 }
 
 type ScenarioResult struct {
-	Name        string           `json:"name"`
-	Threads     int              `json:"threads"`
-	Bound       int              `json:"bound"`
-	Schedules   int64            `json:"schedules"`
-	Decisions   int64            `json:"decisions"`
-	MaxDepth    int              `json:"max_depth"`
-	Points      int64            `json:"points"`
-	Outcomes    map[string]int64 `json:"outcomes"`
-	Violations  []string         `json:"violations"`
-	Schedules2  []string         `json:"violating_schedules"`
-	Capped      bool             `json:"capped"`
-	ReplayOK    bool             `json:"replay_deterministic"`
-	FreeRuns    int              `json:"free_runs"`
-	WallS       float64          `json:"wall_s"`
+	Name       string           `json:"name"`
+	Threads    int              `json:"threads"`
+	Bound      int              `json:"bound"`
+	Schedules  int64            `json:"schedules"`
+	Decisions  int64            `json:"decisions"`
+	MaxDepth   int              `json:"max_depth"`
+	Points     int64            `json:"points"`
+	Outcomes   map[string]int64 `json:"outcomes"`
+	Violations []string         `json:"violations"`
+	Schedules2 []string         `json:"violating_schedules"`
+	Capped     bool             `json:"capped"`
+	ReplayOK   bool             `json:"replay_deterministic"`
+	FreeRuns   int              `json:"free_runs"`
+	WallS      float64          `json:"wall_s"`
 }
 
 type Result struct {
@@ -75,7 +75,18 @@ func Main(scenarios []Scenario) {
 	bound, _ := strconv.Atoi(os.Args[2])
 	maxS, _ := strconv.ParseInt(os.Args[3], 10, 64)
 	res := Result{Mode: mode}
-	for _, sc := range scenarios {
+	// CONC_SHARD=i/n: this process explores the scenarios whose index is i modulo n
+	shard, shards := 0, 1
+	if v := os.Getenv("CONC_SHARD"); v != "" {
+		fmt.Sscanf(v, "%d/%d", &shard, &shards)
+		if shards < 1 {
+			shards = 1
+		}
+	}
+	for si, sc := range scenarios {
+		if si%shards != shard {
+			continue
+		}
 		start := time.Now()
 		want := solo(sc)
 		// a second solo run must observe the same (otherwise the harness does not own the nondeterminism)
